@@ -172,6 +172,86 @@ type rawStep struct {
 	Op  string `json:"op"` // data | unknown-sid | closed-sid-peer | closed-sid-lib | bad-seq | bad-b64-char | bad-b64-trunc | oversize
 	N   int    `json:"n,omitempty"`
 	Seq int    `json:"seq,omitempty"`
+	// Form: how the base64 text of a valid packet is spelled in the XML (data
+	// steps only); Cut steers where it is split.
+	Form string `json:"text_form,omitempty"`
+	Cut  int    `json:"cut,omitempty"`
+}
+
+// textForms: spellings of one and the same base64 text that an XML parser
+// hands to the application as several character-data tokens, or with line
+// breaks the way senders wrap base64.  The first group is the same XML content
+// as the plain text and has to be taken like it; the line-wrapped ones may be
+// taken (with exactly the bytes) or refused as undecodable, never taken with
+// other bytes.
+var textForms = []string{"cdata-split", "cdata-first", "cdata-all", "charref", "charref-padding", "mixed", "newline-wrap", "crlf-wrap", "lead-trail-newline"}
+
+func equivalentForm(f string) bool {
+	switch f {
+	case "", "plain", "cdata-split", "cdata-first", "cdata-all", "charref", "charref-padding", "mixed":
+		return true
+	}
+	return false
+}
+
+// spell writes base64 text b in the given form.
+func spell(b, form string, cut int) string {
+	if len(b) < 4 {
+		if form == "cdata-all" {
+			return "<![CDATA[" + b + "]]>"
+		}
+		return b
+	}
+	// cut positions: on a 4-character group boundary, or one or two off
+	at := (1 + cut/3%max(len(b)/4, 1)) * 4
+	if at >= len(b) {
+		at = len(b) - 4
+	}
+	at += []int{0, 1, -2}[cut%3]
+	if at <= 0 || at >= len(b) {
+		at = 4
+		if at >= len(b) {
+			at = len(b) / 2
+		}
+	}
+	ref := func(ch byte, hex bool) string {
+		if hex {
+			return fmt.Sprintf("&#x%X;", ch)
+		}
+		return fmt.Sprintf("&#%d;", ch)
+	}
+	switch form {
+	case "cdata-split":
+		return b[:at] + "<![CDATA[" + b[at:] + "]]>"
+	case "cdata-first":
+		return "<![CDATA[" + b[:at] + "]]>" + b[at:]
+	case "cdata-all":
+		return "<![CDATA[" + b + "]]>"
+	case "charref":
+		return b[:at] + ref(b[at], cut%2 == 0) + b[at+1:]
+	case "charref-padding":
+		if i := strings.IndexByte(b, '='); i >= 0 {
+			return b[:i] + strings.ReplaceAll(b[i:], "=", "&#61;")
+		}
+		return b[:len(b)-1] + ref(b[len(b)-1], true)
+	case "mixed":
+		return "<![CDATA[" + b[:at] + "]]>" + ref(b[at], false) + "<![CDATA[]]>" + b[at+1:]
+	case "newline-wrap", "crlf-wrap":
+		nl := "\n"
+		if form == "crlf-wrap" {
+			nl = "\r\n"
+		}
+		var sb strings.Builder
+		w := []int{4, 8, 64, 76}[cut%4]
+		for i := 0; i < len(b); i += w {
+			sb.WriteString(b[i:min(i+w, len(b))])
+			sb.WriteString(nl)
+		}
+		return sb.String()
+	case "lead-trail-newline":
+		return "\n" + b + "\r\n"
+	}
+	return b
 }
 
 type rawRecvCase struct {
@@ -262,7 +342,13 @@ func genRawRecv(r *rand.Rand) *rawRecvCase {
 			n = budget
 		}
 		budget -= n
-		rc.Steps = append(rc.Steps, rawStep{Op: "data", N: n})
+		st := rawStep{Op: "data", N: n}
+		if !(rc.SetRB && rc.ReadBuffer > 0) && r.Intn(2) == 0 {
+			// (not where a receive limit is probed: the size estimate counts the
+			// characters of the text)
+			st.Form, st.Cut = textForms[r.Intn(len(textForms))], r.Intn(24)
+		}
+		rc.Steps = append(rc.Steps, st)
 		for r.Intn(3) == 0 {
 			rc.Steps = append(rc.Steps, rawStep{Op: foreign[r.Intn(len(foreign))], N: 1 + r.Intn(8), Seq: r.Intn(3)})
 		}
@@ -408,6 +494,9 @@ func execRawRecv(c *core.Case, rc *rawRecvCase) {
 	refused := false         // a packet of the live stream itself was refused
 	outcome := "clean"
 	for i, st := range rc.Steps {
+		if refused && st.Op == "data" {
+			continue // nothing valid is sent on a stream after one of its packets was refused
+		}
 		if liveRefusal(st.Op) && rd != nil {
 			// what was delivered so far must not be touched by what follows: let
 			// the reader take it first so that a shortfall has one cause
@@ -421,7 +510,10 @@ func execRawRecv(c *core.Case, rc *rawRecvCase) {
 		carrier = rc.Carrier
 		switch st.Op {
 		case "data":
-			id = rp.data(carrier, "live", seq, b64)
+			id = rp.data(carrier, "live", seq, spell(b64, st.Form, st.Cut))
+			if st.Form != "" {
+				c.Count("data_packets_text_in_several_tokens_or_wrapped", 1)
+			}
 			seq = (seq + 1) % 65536
 			off += st.N
 			valid = append(valid, chunk...)
@@ -475,6 +567,12 @@ func execRawRecv(c *core.Case, rc *rawRecvCase) {
 			got = errCond(rep)
 		}
 		switch {
+		case want == "" && got == "bad-request" && !equivalentForm(st.Form):
+			// line-wrapped base64 may be refused as undecodable; then it was not
+			// taken, and nothing more is sent on this stream
+			valid = valid[:len(valid)-st.N]
+			refused = true
+			c.Count("line_wrapped_base64_refused", 1)
 		case want == "" && got != "":
 			c.Violate("ibb:refusal:valid-packet", "step %d: valid packet seq=%d of the live stream was answered with <%s/>", i, seq-1, got)
 			return
